@@ -187,15 +187,93 @@ def run_property(pid, tier="quick", seed=0, jobs=None, only=None):
     return summarize(pid, tier, seed, results, time.time() - t0, mods)
 
 
+TASK_TIMEOUT_S = int(os.environ.get("PYVC_TASK_TIMEOUT_S", "0")) or None      # default set per tier in _run_tasks
+
+
+def _task_name(task):
+    kind, modname, ci, ki = task
+    try:
+        mod = importlib.import_module(modname)
+        if kind == "case":
+            c = mod.CONTRACTS[ci]
+            return "%s#%s" % (c.target, c.cases[ki].name)
+        if kind == "lemma":
+            return mod.LEMMAS[ci].name
+        return mod.BOUNDED[ci].name
+    except Exception:
+        return "%s[%s,%d,%d]" % (modname, kind, ci, ki)
+
+
+def _isolated(task, timeout):
+    """one task in a process of its own: a worker that dies (signal, os._exit in native code) or hangs becomes a checker error that names the task -
+    never a hang of the whole check (multiprocessing.Pool.map waits for ever for a task whose worker died)"""
+    ctx = mp.get_context("fork")
+    rd, wr = ctx.Pipe(duplex=False)
+
+    def child():
+        try:
+            wr.send(_worker(task))
+        except BaseException:
+            wr.send(dict(kind=task[0], error=traceback.format_exc(), name=_task_name(task)))
+        finally:
+            wr.close()
+    pr = ctx.Process(target=child)
+    pr.start()
+    wr.close()
+    out = None
+    try:
+        if rd.poll(timeout):
+            out = rd.recv()
+    except (EOFError, OSError):
+        out = None
+    if out is None:
+        hung = pr.is_alive()
+        if hung:
+            pr.kill()
+        pr.join(10)
+        return dict(kind=task[0], name=_task_name(task),
+                    error="worker process %s (exit code %r) before returning a result" % ("exceeded the task time limit of %s s and was killed" % timeout if hung else "died", pr.exitcode))
+    pr.join(10)
+    return out
+
+
 def _run_tasks(tasks, jobs):
-    results = []
-    if tasks:
-        if jobs == 1 or len(tasks) == 1:
-            results = [_worker(t) for t in tasks]
-        else:
-            ctx = mp.get_context("fork")
-            with ctx.Pool(jobs) as pool:
-                results = pool.map(_worker, tasks, chunksize=1)
+    if not tasks:
+        return []
+    if jobs == 1 or len(tasks) == 1:
+        return [_worker(t) for t in tasks]
+    from concurrent.futures import ProcessPoolExecutor, wait, FIRST_COMPLETED
+    timeout = TASK_TIMEOUT_S or (3600 if _TIER == "quick" else 6 * 3600)
+    missing = object()
+    results = [missing] * len(tasks)
+    ex = ProcessPoolExecutor(jobs, mp_context=mp.get_context("fork"))
+    try:
+        futs = {ex.submit(_worker, t): i for i, t in enumerate(tasks)}
+        pending = set(futs)
+        deadline = time.time() + timeout
+        while pending:
+            done, pending = wait(pending, timeout=max(1.0, min(60.0, deadline - time.time())), return_when=FIRST_COMPLETED)
+            for f in done:
+                try:
+                    results[futs[f]] = f.result()
+                except BaseException:          # BrokenProcessPool: some worker died; every unfinished task is rerun on its own below
+                    pass
+            if time.time() > deadline:
+                break
+    finally:
+        # do not wait for workers that hang: kill them, then shut the pool down
+        for pr in list(getattr(ex, "_processes", {}).values()):
+            try:
+                if any(r is missing for r in results):
+                    pr.kill()
+            except Exception:
+                pass
+        ex.shutdown(wait=False, cancel_futures=True)
+    rerun = [i for i, r in enumerate(results) if r is missing]
+    if rerun:
+        sys.stderr.write("NOTE: the worker pool broke (a worker process died or hung); %d unfinished task(s) rerun one by one in processes of their own\n" % len(rerun))
+    for i in rerun:
+        results[i] = _isolated(tasks[i], timeout)
     return results
 
 
